@@ -8,6 +8,7 @@ asks the solver which sides are feasible, follows one and queues the other prefi
 No interpreter state is ever copied or merged.
 """
 import itertools
+import os
 import time
 
 import z3
@@ -312,7 +313,7 @@ class Ctx:
             # `unknown` at once where it would otherwise search for a model of the quantified axioms;
             # unknown counts as feasible (over-approximation: vacuous obligations, never a verdict)
             s.set("smt.mbqi", False)
-            s.set("timeout", 2000)
+            s.set("timeout", int(os.environ.get("PYVC_FEAS_MS", "300")))
         s.set("random_seed", self.seed)
         for e in (self.theory.light_axioms if light else self.theory.exprs()):
             s.add(e)
